@@ -23,7 +23,7 @@ pub mod stdlib {
 }
 pub mod num_bigint { pub use crate::shim::{BigInt, BigUint, Sign, ParseBigIntError, ToBigInt}; }
 pub mod num_traits { pub use crate::shim::{Zero, One, Signed, ToPrimitive, FromPrimitive, CheckedSub}; }
-pub mod num_integer { pub use crate::shim::NumInteger as Integer; }
+pub mod num_integer { pub use crate::shim::NumInteger as Integer; pub use crate::shim::integer_div_rem as div_rem; }
 
 use self::stdlib::cmp::{self, Ordering};
 use self::stdlib::convert::TryFrom;
